@@ -4,6 +4,7 @@ import (
 	"bytes"
 	"errors"
 	"fmt"
+	"os"
 	"strings"
 	"testing"
 	"unicode"
@@ -22,6 +23,8 @@ type c04ID struct {
 	Kind string `json:"kind"` // x25519 | scrypt | ed25519 | rsa
 	Idx  int    `json:"idx,omitempty"`
 	Pass string `json:"pass,omitempty"`
+	// PassRaw carries passphrases that are not valid UTF-8 (JSON would mangle them in Pass)
+	PassRaw []byte `json:"passRaw,omitempty"`
 }
 
 type c04Case struct {
@@ -75,6 +78,9 @@ func c04Check(c c04Case, st *stats.Run) error {
 			ids = append(ids, p.X25519Identity(i.Idx))
 			sameType = sameType || types["x25519"]
 		case "scrypt":
+			if i.PassRaw != nil {
+				i.Pass = string(i.PassRaw)
+			}
 			id, err := age.NewScryptIdentity(i.Pass)
 			if err != nil {
 				return pbt.Failf("C04/harness", "bad passphrase: %v", err)
@@ -255,5 +261,41 @@ func TestC04(t *testing.T) {
 		}
 		s.St.Exhaust("near-miss passphrases (one character, case, added space, prefix/suffix, Unicode normalisation form) of 6 passphrases", int64(n))
 	}, check)
+	// passphrases that are not valid UTF-8 and differ only in an invalid byte
+	pbt.Each(s, "foreign-exhaustive", func(yield func(c04Case)) {
+		n := 0
+		for _, pw := range []string{"caf\xe9", "\xff\xfe", "pass\xc3", "\x80word"} {
+			for _, alt := range []byte{0xe8, 0xff, 0xc3, 0x80, 0xfe} {
+				np := []byte(pw)
+				for i, b := range np {
+					if b >= 0x80 && b != alt {
+						np2 := append([]byte{}, np...)
+						np2[i] = alt
+						yield(c04Case{Recs: []hx.RecSpec{{Kind: "scrypt", Pass: pw, WF: 1}}, FlipOf: -1, PlainLen: 3, IDs: []c04ID{{Kind: "scrypt", PassRaw: np2}}, Control: n%2 == 0})
+						n++
+					}
+				}
+			}
+		}
+		s.St.Exhaust("passphrases containing bytes that are not valid UTF-8, against passphrases that differ only in such a byte", int64(n))
+	}, check)
+	// the same through the age command and a terminal: a passphrase that differs
+	// by a blank, a character or case does not open the file
+	pbt.Each(s, "foreign-cli-terminal", func(yield func(c15Pty)) {
+		if s.Shard != 0 || os.Getenv("VERIF_BIN") == "" {
+			return
+		}
+		for _, d := range []string{"wrong", "wrong-space-after", "wrong-space-before"} {
+			yield(c15Pty{Decrypt: d, Pass: "Terminal Passphrase", PlainLen: 10})
+		}
+		yield(c15Pty{EncIdentity: "wrong-space", Pass: "identity passphrase", PlainLen: 10})
+		s.St.Exhaust("age -d through a terminal with passphrases one character / one blank away", 4)
+	}, func(c c15Pty) error {
+		err := c15CheckPty(c, s.St)
+		if f, ok := err.(*pbt.Fail); ok {
+			f.Key = "C04/foreign-identity-decrypts"
+		}
+		return err
+	})
 	pbt.Rapid(s, "foreign", s.N(4000, 30000), c04Gen, check)
 }
